@@ -44,6 +44,23 @@ def run(ctx):
     binp = ctx.go_test_build("./cmd/thermal-recorder", "tr.test")
     n = 60 if tier == "quick" else 1200
     scripts = [gen_script(rng) for _ in range(n)]
+    # the same through the throttle (manual clock): cuts and mid-trigger restarts must keep each trigger's own
+    # background and threshold
+    for i in range(n // 3):
+        sc = gen_script(rng)
+        sc["W"], sc["H"] = rng.choice([(2, 2), (4, 3)])
+        sc["Fps"] = rng.choice([1, 2, 3])
+        th = dict(bucket=rng.choice([1, 2, 3]), minlen=rng.choice([1, 2]), k=rng.choice([5, 50, 400]), frame_ms=rng.choice([1, 100, 400]))
+        sc["throttle"] = th
+        recs = []
+        for r in range(rng.randint(2, 5)):
+            nfr = rng.choice([1, 3, th["bucket"] * sc["Fps"] + 2, 3 * th["bucket"] * sc["Fps"] + 5, 25])
+            recs.append(dict(adv_ms=rng.choice([0, 50, th["k"] * th["minlen"] * sc["Fps"], 100000]), thresh=1000 + 7 * r + rng.randint(0, 5),
+                             bg=dict(gen="scene", seed=rng.randint(0, 999)),
+                             frames=[dict(gen=rng.choice(["scene", "small", "rand16"]), seed=rng.randint(0, 10 ** 6), timeOn=60000 + 111 * k,
+                                          lastFFC=0, tempC=20.5, lastFFCTempC=20.0) for k in range(nfr)]))
+        sc["recordings"] = recs
+        scripts.append(sc)
     inp, outp = ctx.path("run", "rec.json"), ctx.path("run", "rec.ndjson")
     json.dump(dict(scripts=scripts), open(inp, "w"))
     r = subprocess.run([binp, "-test.run", "^TestVerifRecord$"], env=dict(os.environ, VERIF_SCRIPT=inp, VERIF_OUT=outp),
@@ -69,13 +86,14 @@ def run(ctx):
                                   script=scripts[e.get("script", 0)], event={k: e[k] for k in e if k not in ("expected", "decoded")}))
             violations.append(dict(key=tg, replay=rp, what="script %s" % e.get("script")))
     violations += fam_e2e.judge_c11(ctx, e2e_events, binp)
-    files = [e for e in events if e["ev"] == "file"]
+    files = [e for e in events if e["ev"] in ("file", "tfile")]
     frames = sum(len(e["decoded"]["frames"]) for e in files)
     coverage = dict(states=max(1, e2e_design.get("distinct", 0)), transitions=max(1, e2e_design.get("generated", 0)),
                     traces_validated_against_impl=len(files) + e2e_stats.get("runs", 0),
                     samples=[dict(script={k: scripts[0][k] for k in scripts[0] if k != "recordings"},
                                   decoded_header={k: files[0]["decoded"][k] for k in files[0]["decoded"] if k != "frames"})] if files else [{}],
-                    files_decoded=len(files), frames_compared=frames, e2e=e2e_stats,
+                    files_decoded=len(files), files_through_throttle=sum(1 for e in events if e["ev"] == "tfile"),
+                    frames_compared=frames, e2e=e2e_stats,
                     evaluations=len(scripts) + e2e_stats.get("runs", 0),
                     distinct_nontrivial=len({json.dumps(s, sort_keys=True) for s in scripts}) + e2e_stats.get("runs", 0),
                     rule="generated device/camera/location/motion descriptions x pixel generators (full range, 0, 65535, "
